@@ -111,7 +111,34 @@ def r_onto(F, R, cat=None):
 
 def leaves_ok(t, want_root, want_path):
     ps = places_in(t)
-    return bool(ps) and all(p[2] == want_root and tuple(p[3]) == tuple(want_path) for p in ps)
+    if bool(ps) and all(p[2] == want_root and tuple(p[3]) == tuple(want_path) for p in ps):
+        return True
+    # taken apart and put together again (`match self.0 { Ok(inner) => iter(inner.columns, inner.index),
+    # Err(slice) => iter(slice) }`): the leaves are sub-places that jointly make up the value
+    if not ps or any(p[2] != want_root or tuple(p[3][:len(want_path)]) != tuple(want_path) for p in ps):
+        return False
+    return _jointly_covers({tuple(p[3]) for p in ps}, tuple(want_path))
+
+
+def _jointly_covers(paths, base, depth=0):
+    """the set of place paths (all extending `base`) makes up all of `base`: base itself, or for
+    every variant that is mentioned its payload, or a newtype's only field, or at least two
+    sibling fields each of which is made up in turn"""
+    if base in paths:
+        return True
+    if depth > 6:
+        return False
+    ext = {p for p in paths if len(p) > len(base) and p[:len(base)] == base}
+    if not ext:
+        return False
+    heads = {p[len(base)] for p in ext}
+    if all(h.startswith("v:") for h in heads):
+        return all(_jointly_covers(ext, base + (h, "f:0"), depth + 1) for h in heads)
+    if heads == {"f:0"}:
+        return _jointly_covers(ext, base + ("f:0",), depth + 1)
+    if all(h.startswith("f:") for h in heads) and len(heads) >= 2:
+        return all(_jointly_covers(ext, base + (h,), depth + 1) for h in heads)
+    return False
 
 
 def limiting_calls(t):
